@@ -68,6 +68,15 @@ MixedOk(r, ms) == \A k \in 1..Len(ms) : IF r.ok THEN ms[k].status = "ok" /\ Same
 
 Skip(r) == (~r.ok /\ (r.oom \/ r.why = "type"))
 
+(* outside the tower model (a float result that is infinite or NaN): the specification has no value to offer, but the property *)
+(* itself still speaks - the compiler's answer and the interpreter's answer are the same answer                                *)
+SameObs(x, y) == /\ x.status = y.status
+                 /\ (x.status = "ok" =>
+                        /\ x.val.kind = y.val.kind
+                        /\ IF x.val.kind = "float" THEN x.val.cls = y.val.cls /\ (x.val.cls = "nan" \/ (x.val.neg = y.val.neg /\ x.val.m = y.val.m /\ x.val.e = y.val.e))
+                           ELSE x.val.dec = y.val.dec)
+Agree(c) == SameObs(c.folded, c.unfolded) /\ \A k \in 1..Len(c.mixed) : SameObs(c.mixed[k], c.unfolded)
+
 Judge ==
     LET c == Cases[i] IN
     IF c.tree.k = "list2" THEN
@@ -82,7 +91,10 @@ Judge ==
         ELSE (c.folded.status = "reject" /\ c.unfolded.status = "fail")
              \/ PrintT("DISAGREE " \o ToJson([id |-> c.id, expected |-> <<[fail |-> TRUE]>>]))
     ELSE LET r == Ev(c.tree) IN
-         IF IllTyped(c.tree) \/ Skip(r) THEN PrintT("SKIP " \o ToJson([id |-> c.id]))
+         IF ~IllTyped(c.tree) /\ ~r.ok /\ r.oom /\ c.unfolded.status = "ok" THEN
+              (Agree(c) \/ PrintT("DISAGREE " \o ToJson([id |-> c.id, expected |-> <<[agree_with_unfolded |-> TRUE]>>])))
+              /\ PrintT("SKIP " \o ToJson([id |-> c.id]))
+         ELSE IF IllTyped(c.tree) \/ Skip(r) THEN PrintT("SKIP " \o ToJson([id |-> c.id]))
          ELSE (Holds(r, c.folded, c.unfolded) /\ MixedOk(r, c.mixed))
               \/ PrintT("DISAGREE " \o ToJson([id |-> c.id, expected |-> IF r.ok THEN <<Show(r.v)>> ELSE <<[fail |-> r.why]>>]))
 =============================================================================
